@@ -221,8 +221,22 @@ class CKernel:
         # loopy's C target emits "static inline static int isnani32(...)" for
         # isnan of an integer-typed expression (its OpenCL target: "inline
         # static"); repair the qualifier, the kernel body is untouched.
-        self.lib = _compile(self.source.replace("static inline static ",
-                                                "static inline "))
+        src = self.source.replace("static inline static ", "static inline ")
+        # loopy's C target emits only one of the lpy_max_<t>/lpy_min_<t>
+        # helper definitions when a kernel needs them for two integer types
+        # (OpenCL has max/min built in): supply the missing ones.
+        missing = []
+        for fn, ty in sorted(set(re.findall(
+                r"\blpy_(max|min)_(u?int(?:8|16|32|64))\b", src))):
+            name = f"lpy_{fn}_{ty}"
+            if not re.search(r"\b" + name + r"\s*\(\s*" + ty + r"_t a", src):
+                op = ">" if fn == "max" else "<"
+                missing.append(
+                    f"static inline {ty}_t {name}({ty}_t a, {ty}_t b) "
+                    f"{{ return (a {op} b ? a : b); }}\n")
+        if missing:
+            src = "#include <stdint.h>\n" + "".join(missing) + src
+        self.lib = _compile(src)
         self.fn = getattr(self.lib, self.entry)
         self.fn.restype = None
 
